@@ -421,3 +421,99 @@ impl<K: Ord> FromIterator<K> for HashSet<K> {
         s
     }
 }
+
+
+/// Bit-set stand-in for HashSet / BTreeSet of SMALL unsigned integers (keys < 64, a stated bound: a larger key is
+/// `assume(false)` under Kani). insert / contains are one shift each - no loops, trivial for the solver.
+pub mod bitset {
+    pub trait SmallKey: Copy {
+        fn idx(&self) -> usize;
+        fn from_idx(i: usize) -> Self;
+    }
+    macro_rules! sk { ($($t:ty),*) => {$(
+        impl SmallKey for $t {
+            fn idx(&self) -> usize { *self as usize }
+            fn from_idx(i: usize) -> Self { i as $t }
+        }
+    )*}; }
+    sk!(u8, u16, u32, u64, usize);
+
+    fn bound(i: usize) {
+        if i >= 64 {
+            #[cfg(kani)]
+            kani::assume(false);
+            panic!("bitset key >= 64 (bound of the verification harness)");
+        }
+    }
+
+    #[derive(Clone, Debug, PartialEq, Eq)]
+    pub struct HashSet<K> {
+        bits: u64,
+        _k: std::marker::PhantomData<K>,
+    }
+    pub type BTreeSet<K> = HashSet<K>;
+    impl<K> Default for HashSet<K> {
+        fn default() -> Self {
+            HashSet { bits: 0, _k: std::marker::PhantomData }
+        }
+    }
+    impl<K: SmallKey> HashSet<K> {
+        pub fn new() -> Self {
+            Self::default()
+        }
+        pub fn insert(&mut self, k: K) -> bool {
+            let i = k.idx();
+            bound(i);
+            let had = (self.bits >> i) & 1 == 1;
+            self.bits |= 1u64 << i;
+            !had
+        }
+        pub fn contains(&self, k: &K) -> bool {
+            let i = k.idx();
+            i < 64 && (self.bits >> i) & 1 == 1
+        }
+        pub fn remove(&mut self, k: &K) -> bool {
+            let i = k.idx();
+            if i >= 64 { return false; }
+            let had = (self.bits >> i) & 1 == 1;
+            self.bits &= !(1u64 << i);
+            had
+        }
+        pub fn len(&self) -> usize {
+            self.bits.count_ones() as usize
+        }
+        pub fn is_empty(&self) -> bool {
+            self.bits == 0
+        }
+        pub fn iter(&self) -> Iter<K> {
+            Iter { bits: self.bits, pos: 0, _k: std::marker::PhantomData }
+        }
+    }
+    pub struct Iter<K> {
+        bits: u64,
+        pos: usize,
+        _k: std::marker::PhantomData<K>,
+    }
+    impl<K: SmallKey> Iterator for Iter<K> {
+        type Item = K;
+        fn next(&mut self) -> Option<K> {
+            while self.pos < 64 {
+                let p = self.pos;
+                self.pos += 1;
+                if (self.bits >> p) & 1 == 1 {
+                    return Some(K::from_idx(p));
+                }
+            }
+            None
+        }
+    }
+    impl<K: SmallKey> FromIterator<K> for HashSet<K> {
+        fn from_iter<I: IntoIterator<Item = K>>(it: I) -> Self {
+            let mut s = HashSet::new();
+            for k in it {
+                s.insert(k);
+            }
+            s
+        }
+    }
+}
